@@ -8,10 +8,11 @@
    caught classes resolved by the translator against the class hierarchy of the source, bare `raise`, for loops over lists with
    early return, list.append.  What it drops: the arguments of exceptions (an exception is its class), warnings, type
    annotations, docstrings. *)
-From Curies.model Require Export Query.
+From Curies.model Require Export Query Reconcile.
 
 Inductive pv := PNone | PBool (b : bool) | PStr (s : str) | PTup (l : list pv) | PList (l : list pv) | PRec (r : record)
-| PDict (d : list (str * pv)).          (* a dict with string keys, in insertion order *)
+| PDict (d : list (str * pv))           (* a dict with string keys, in insertion order *)
+| PNewConv (rs : list record).          (* the result of Converter(records): the constructor itself is Conv.mk_conv, not translated *)
 
 Inductive sdict := DPrefixMap | DSynonymToPrefix | DReversePrefixMap | DPatternMap.
 Inductive attr := APrefix | AIdentifier | AUriPrefix | APrefixSynonyms | AUriPrefixSynonyms | APattern | AAllPrefixes | AAllUriPrefixes.
@@ -35,6 +36,10 @@ Inductive pexp :=
 | EDictLit (keys : list str) (vals : pexps)  (* {"k1": e1, ...} with constant string keys *)
 | ESorted (e : pexp)                       (* sorted(<list of str>) *)
 | ECall (f : nat) (args : pexps)           (* self.f(...) or a module-level f(...): arguments in the callee's parameter order *)
+| ESubscr (d k : pexp)                     (* d[k] for a local dict d *)
+| ESetUpd (l add : pexp) (remove : pexps)  (* sorted(set(l).union({add}).difference({remove...})) *)
+| EKeysInterValues (d : pexp)              (* set(d).intersection(d.values()) *)
+| ENewConv (records : pexp)                (* Converter(records) *)
 | EChain (l : pexps)                       (* itertools.chain(l1, l2, ...) of lists, consumed by a for loop: their concatenation *)
 | EStar (e : pexp)                         (* *e, inside an argument list only *)
 with pexps := XNil | XCons (e : pexp) (r : pexps).
@@ -52,6 +57,7 @@ Inductive pstmt :=
 | SSetItem (x : nat) (key : pexp) (e : pexp)  (* x[key] = e for a dict x and a string key *)
 | SRecAppend (x : nat) (a : attr) (e : pexp)  (* x.<synonym list>.append(e) for a Record held in the local x *)
 | SRecSort (x : nat) (a : attr)               (* x.<synonym list>.sort() *)
+| SRecSet (x : nat) (a : attr) (e : pexp)     (* x.<attribute> = e for a Record held in the local x *)
 | SSelfSet (d : sdict) (k v : pexp)           (* self.<d>[k] = v : only the state-changing interpreter (execm) gives it a meaning *)
 | STrieSet (k v : pexp)                       (* self.trie[k] = v *)
 | SPass
@@ -77,7 +83,22 @@ Definition truthy (v : pv) : bool :=
   | PNone => false | PBool b => b | PStr [] => false | PStr _ => true
   | PTup [] => false | PTup _ => true | PList [] => false | PList _ => true | PRec _ => true
   | PDict [] => false | PDict _ => true
+  | PNewConv _ => true
   end.
+Fixpoint as_recs_pv (l : list pv) : option (list record) :=
+  match l with
+  | [] => Some []
+  | PRec r :: t => match as_recs_pv t with Some rs => Some (r :: rs) | None => None end
+  | _ :: _ => None
+  end.
+(* a dict all of whose values are strings, as the model's association list *)
+Fixpoint as_sdict_pv (d : list (str * pv)) : option (list (str * str)) :=
+  match d with
+  | [] => Some []
+  | (k, PStr v) :: t => match as_sdict_pv t with Some m => Some ((k, v) :: m) | None => None end
+  | _ :: _ => None
+  end.
+Definition remove_all (l : list str) (rm : list str) : list str := filter (fun x => negb (mem x rm)) l.
 Fixpoint as_strs_pv (l : list pv) : option (list str) :=
   match l with
   | [] => Some []
@@ -209,6 +230,7 @@ Fixpoint eval (e : pexp) : eres :=
       match eval a with
       | EV va => match eval b with
                  | EV (PList l) | EV (PTup l) => match contains va l with Some r => EV (PBool r) | None => ES end
+                 | EV (PDict d) => match va with PStr k => EV (PBool (dhas k d)) | PList _ => EX ETypeError | _ => EV (PBool false) end
                  | EV _ => ES
                  | r => r end
       | r => r end
@@ -233,6 +255,37 @@ Fixpoint eval (e : pexp) : eres :=
   | ESorted e =>
       match eval e with
       | EV (PList l) | EV (PTup l) => match as_strs_pv l with Some ss => EV (pstrs (sort_str ss)) | None => ES end
+      | EV _ => ES
+      | r => r end
+  | ESubscr d k =>
+      match eval d with
+      | EV (PDict dd) => match eval k with
+                         | EV (PStr ks) => match dget ks dd with Some v => EV v | None => EX EKeyError end
+                         | EV (PList _) => EX ETypeError
+                         | EV _ => EX EKeyError
+                         | r => r end
+      | EV _ => ES
+      | r => r end
+  | ESetUpd l add remove =>
+      match eval l with
+      | EV (PList ll) =>
+          match as_strs_pv ll, eval add, eval_list remove with
+          | Some ls, EV (PStr a), LV rm => match as_strs_pv rm with
+                                           | Some rms => EV (pstrs (sort_uniq (remove_all (ls ++ [a]) rms)))
+                                           | None => ES end
+          | _, EX x, _ => EX x
+          | _, _, LX x => EX x
+          | _, _, _ => ES end
+      | EV _ => ES
+      | r => r end
+  | EKeysInterValues d =>
+      match eval d with
+      | EV (PDict dd) => match as_sdict_pv dd with Some m => EV (pstrs (inter (map fst m) (map snd m))) | None => ES end
+      | EV _ => ES
+      | r => r end
+  | ENewConv e =>
+      match eval e with
+      | EV (PList l) => match as_recs_pv l with Some rs => EV (PNewConv rs) | None => ES end
       | EV _ => ES
       | r => r end
   | EChain l =>
@@ -268,6 +321,14 @@ Definition rec_set_syn (r : record) (a : attr) (l : list str) : option record :=
   | APrefixSynonyms => Some {| r_prefix := r_prefix r; r_uri := r_uri r; r_psyn := l; r_usyn := r_usyn r; r_pat := r_pat r |}
   | AUriPrefixSynonyms => Some {| r_prefix := r_prefix r; r_uri := r_uri r; r_psyn := r_psyn r; r_usyn := l; r_pat := r_pat r |}
   | _ => None
+  end.
+Definition rec_set_attr (r : record) (a : attr) (v : pv) : option record :=
+  match a, v with
+  | APrefix, PStr x => Some {| r_prefix := x; r_uri := r_uri r; r_psyn := r_psyn r; r_usyn := r_usyn r; r_pat := r_pat r |}
+  | AUriPrefix, PStr x => Some {| r_prefix := r_prefix r; r_uri := x; r_psyn := r_psyn r; r_usyn := r_usyn r; r_pat := r_pat r |}
+  | APrefixSynonyms, PList l => match as_strs_pv l with Some ls => rec_set_syn r a ls | None => None end
+  | AUriPrefixSynonyms, PList l => match as_strs_pv l with Some ls => rec_set_syn r a ls | None => None end
+  | _, _ => None
   end.
 Definition rec_get_syn (r : record) (a : attr) : option (list str) :=
   match a with APrefixSynonyms => Some (r_psyn r) | AUriPrefixSynonyms => Some (r_usyn r) | _ => None end.
@@ -352,6 +413,14 @@ Fixpoint exec (cur : option err) (s : pstmt) (env : list pv) {struct s} : out :=
           | Some l => match rec_set_syn r a (sort_str l) with Some r' => ONorm (upd x (PRec r') env) | None => OStuck end
           | None => OStuck end
       | _ => OStuck end
+  | SRecSet x a e =>
+      match nth_error env x with
+      | Some (PRec r) =>
+          match eval c call env e with
+          | EV v => match rec_set_attr r a v with Some r' => ONorm (upd x (PRec r') env) | None => OStuck end
+          | EX x' => ORaise x'
+          | ES => OStuck end
+      | _ => OStuck end
   | SSelfSet _ _ _ | STrieSet _ _ => OStuck        (* the read-only interpreter does not change the converter *)
   | SPass => ONorm env
   end
@@ -431,7 +500,7 @@ Fixpoint execm (s : pstmt) (env : list pv) (c : conv) {struct s} : outm :=
       | EX x' => MRaise x'
       | ES => MStuck end
   | SPass => MNorm env c
-  | SUnpack _ _ | SReraise | STry _ _ _ _ | SAppend _ _ | SSetItem _ _ _ | SRecAppend _ _ _ | SRecSort _ _ => MStuck
+  | SUnpack _ _ | SReraise | STry _ _ _ _ | SAppend _ _ | SSetItem _ _ _ | SRecAppend _ _ _ | SRecSort _ _ | SRecSet _ _ _ => MStuck
   end
 with execm_block (b : pblock) (env : list pv) (c : conv) {struct b} : outm :=
   match b with
